@@ -296,6 +296,8 @@ func c04Units(tier string, seed int64) []Unit {
 	}})
 	// what a test case draws does not depend on the TEXT with which an attempt is rejected: the same generator
 	// function skipping with different messages (among them words the library uses itself) draws the same
+	units = append(units, siblingsUnit("C04"))
+	units = append(units, longLivedUnit("C04", quick))
 	units = append(units, Unit{Name: "C04/skip-message-independence", Run: func(c *Ctx) {
 		tb := NewTB("C04")
 		tb.Quiet = true
